@@ -3,6 +3,7 @@ package message
 import (
 	"encoding/binary"
 
+	"github.com/free5gc/ike/internal/verifhook"
 	"github.com/pkg/errors"
 )
 
@@ -146,6 +147,7 @@ func (securityAssociation *SecurityAssociation) Marshal() ([]byte, error) {
 
 func (securityAssociation *SecurityAssociation) Unmarshal(b []byte) error {
 	for len(b) > 0 {
+		verifhook.At("message.sa.proposal", len(b))
 		// bounds checking
 		if len(b) < 8 {
 			return errors.Errorf("Proposal: No sufficient bytes to decode next proposal")
@@ -176,6 +178,7 @@ func (securityAssociation *SecurityAssociation) Unmarshal(b []byte) error {
 		transformData = b[8+spiSize : proposalLength]
 
 		for len(transformData) > 0 {
+			verifhook.At("message.sa.transform", len(transformData))
 			// bounds checking
 			if len(transformData) < 8 {
 				return errors.Errorf("Transform: No sufficient bytes to decode next transform")
